@@ -242,8 +242,10 @@ func checkC18(c *Ctx) {
 			for _, s := range sites[f] {
 				cb := closureArg(s.Arg(3))
 				if cb == nil || len(cb.Params) < 3 {
+					ru4.Undecided(fmt.Sprintf("callback of the Insert at %s", c.whereI(s.Instr)), c.whereI(s.Instr), "the in-flight callback cannot be resolved to a function")
 					continue
 				}
+				usesBefore := n
 				// all functions nested in cb
 				var nested []*ssa.Function
 				for _, g := range c.P.ModFuncs() {
@@ -285,6 +287,8 @@ func checkC18(c *Ctx) {
 						}
 					}
 				}
+				// the callback itself is an instance: one that never looks at the received packet satisfies the rule
+				ru4.OK("received-packet uses in callback "+c.fname(cb)+" registered at "+c.fname(f), c.where(cb, cb), fmt.Sprintf("%d use(s) examined", n-usesBefore))
 			}
 		}
 	}
